@@ -39,6 +39,14 @@ def bcdEnc (k : Nat) : Bytes :=
   if h : k = 0 then [] else bcdEnc (k / 100) ++ [byte ((k / 10 % 10) * 16 + k % 10)]
 decreasing_by omega
 
+/-- the same function by structural recursion on a fuel argument (kernel-evaluable; `bcdEncK_eq` in
+Proofs/EncodingLemmas.lean shows `bcdEncK k = bcdEnc k`). -/
+def bcdEncFuel : Nat → Nat → Bytes
+  | 0, _ => []
+  | fuel + 1, k => if k = 0 then [] else bcdEncFuel fuel (k / 100) ++ [byte ((k / 10 % 10) * 16 + k % 10)]
+
+def bcdEncK (k : Nat) : Bytes := bcdEncFuel k k
+
 /-- One step of `bcd_integrals!::decode` with checked arithmetic (after the repair of
 defect D2): the new accumulator, or an error if it does not fit `w` bytes. -/
 def bcdStep (w : Nat) (rv : Nat) (d : UInt8) : Res Nat :=
@@ -63,7 +71,7 @@ def bcdDec (w : Nat) (data : Bytes) : Res (Nat × Bytes) :=
 /-! ### `PartialReversalReceiptNo` -/
 
 def prrnEnc (n : Nat) : Bytes :=
-  if n = 0xffff then leBytes 2 n else bcdEnc n
+  if n = 0xffff then leBytes 2 n else bcdEncK n
 
 def prrnDec (w : Nat) (b : Bytes) : Res (Nat × Bytes) :=
   match b with
